@@ -200,8 +200,28 @@ def check_series(site, kind, bufs, n_paths, n_steps, init, params, dtype, stats,
             nb = torch.zeros_like(z)
             nb[:, 1:] |= big[:, :-1]
             nb[:, :-1] |= big[:, 1:]
-            if bool((z & nb).any()):
-                raise Violation(ID, "zero_price", site, {"params": params, "path": s[(z & nb).any(dim=1)][0]}, seq)
+            sus = z & nb
+            var = bufs.get("variance")
+            if bool(sus.any()) and var is not None and var.shape == s.shape:
+                # exp(cumulative log-return) is not absorbing at zero: with an exploding stochastic variance (rough Bergomi, eta ~ 2,
+                # years of horizon) one step moves the log-price by sqrt(V dt) z - V dt / 2, i.e. by hundreds, so a price can
+                # underflow next to an ordinary neighbour and come back. A zero is excused where the variance of an adjacent step
+                # can carry the neighbour below the smallest positive number of the dtype (drift + 10 standard deviations).
+                dtv_ = float(params.get("dt", 1 / 250))
+                vdt = (var.double().clamp(min=0) * dtv_)
+                reach = vdt / 2 + 10 * vdt.sqrt()
+                reach_nb = reach.clone()
+                reach_nb[:, 1:] = torch.maximum(reach_nb[:, 1:], reach[:, :-1])
+                reach_nb[:, :-1] = torch.maximum(reach_nb[:, :-1], reach[:, 1:])
+                nbval = torch.zeros_like(s, dtype=torch.float64)
+                nbval[:, 1:] = torch.maximum(nbval[:, 1:], s[:, :-1].double())
+                nbval[:, :-1] = torch.maximum(nbval[:, :-1], s[:, 1:].double())
+                need = nbval.clamp(min=1e-300).log() - math.log(float(torch.finfo(dtype).tiny) * float(torch.finfo(dtype).eps))
+                sus = sus & ~(reach_nb >= need)
+                if not bool(sus.any()):
+                    stats.probe("underflow_next_to_ordinary_price_excused_by_variance")
+            if bool(sus.any()):
+                raise Violation(ID, "zero_price", site, {"params": params, "path": s[sus.any(dim=1)][0]}, seq)
             stats.probe("underflow_to_zero_accepted")
     if "variance" in bufs:
         v = bufs["variance"]
